@@ -26,6 +26,21 @@ CHECKS = {
          "Every bitmap with 0, 1, 2 (thorough: 3) defined bits, the full sets and every undefined bit, through yaml save/load, the legacy array form, the account manager (create, migration, fresh load) and the login access field plus ten governed requests; the keys that are true in the file must be the protocol's names of the set bits (table written from the protocol document).",
          "Name table in ref/priv.go is trusted; subsets of 4..39 bits are outside the bound.",
          "DESIGN.md §5 C16"),
+ "C04": ("model_checking",
+         "bounded-exhaustive enumeration of pre-login sessions on the real connection loop plus stateless schedule exploration (deviation-bounded DFS with hold-back) of a refused and an accepted login in flight together",
+         "~3,800 sessions (handshake variants x first transaction of any type x credential alphabets x four account databases incl. malformed stored hashes x banned/not x one or two appended requests) decide logged-in against an independent bcrypt reference and check bytes received, world snapshot and an observer's inbox; all schedules of two simultaneous logins with at most 2 (thorough 3) deviations check that the refused peer receives nothing but greeting and one error.",
+         "Credential alphabets are small; appended transactions from a 60-request corpus; scheduling points at sync/atomic/channel/connection/file-system operations.",
+         "DESIGN.md §5 C04"),
+ "C13": ("model_checking",
+         "explicit-state breadth-first search over presence histories replayed on the real server (canonical-state deduplication), the same histories shifted across the 65,536-connection boundary, and schedule exploration of two simultaneous connects",
+         "Every history up to depth 5 (thorough 6) over 31 operations of three clients plus a probe is executed on a fresh server; in every new state user ids are pairwise distinct, each client's roster folded from the notifications it received equals a fresh user list, and targeted requests (private message with refuse/auto-reply semantics, invitation, info, kick) reach only the holder of the id.",
+         "Three client slots; default schedule for histories (the quantifier has no schedules); wrap family at depth 2 (thorough 3) for offsets 0..3.",
+         "DESIGN.md §5 C13"),
+ "C15": ("model_checking",
+         "explicit-state breadth-first search over account-management histories against a reference account model, four views compared after every transition; schedule exploration of two concurrent modifications of one account",
+         "Every history up to depth 3 (thorough 4) over 46 operations (new/set/delete/batched create, modify, rename, delete; three logins, three passwords) is replayed through an administrator's connection; afterwards login attempts for every login x password, the list-users reply, the independently parsed accounts directory and a freshly loaded account manager must equal the model; E-SCHED checks that memory and disk agree after two concurrent edits.",
+         "Renames only onto unused logins; small login/password alphabets.",
+         "DESIGN.md §5 C15"),
 }
 NOT_YET = "check not built yet in this session (see DESIGN.md §11 build order)"
 
